@@ -114,11 +114,11 @@ fn run_c31(tier: Tier, replay: Option<&str>) -> i32 {
     }
     let ctx = Ctx::new("C31", tier);
     let acc = Acc::default();
-    let n = tier.pick(5, 6);
+    let n = tier.pick(5, 7);
     let alpha = 3u16;
     let all = seqs(alpha, n);
     // a 4th symbol on shorter sequences
-    let all4 = seqs(4, tier.pick(4, 5));
+    let all4 = seqs(4, tier.pick(4, 6));
     let run = |list: &Vec<Vec<u16>>| {
         list.par_iter().for_each(|a| {
             if ctx.expired() {
@@ -144,7 +144,7 @@ fn run_c31(tier: Tier, replay: Option<&str>) -> i32 {
         &acc,
         Finish {
             level: "exploration",
-            rule: format!("all ordered pairs of token-type sequences over 3 symbols of length <= {n} and over 4 symbols of length <= {}; through hook H1 to the crate-private Recovery::levenshtein_distance; oracle: the script applied the way adjust_token_stream applies it turns `act` into `exp`, its number of non-keep operations equals the returned distance, which equals a textbook DP edit distance. Non-trivial = pairs of different sequences.", tier.pick(4, 5)),
+            rule: format!("all ordered pairs of token-type sequences over 3 symbols of length <= {n} and over 4 symbols of length <= {}; through hook H1 to the crate-private Recovery::levenshtein_distance; oracle: the script applied the way adjust_token_stream applies it turns `act` into `exp`, its number of non-keep operations equals the returned distance, which equals a textbook DP edit distance. Non-trivial = pairs of different sequences.", tier.pick(4, 6)),
             exhaustive_note: "all pairs".into(),
             assumptions: vec!["hook H1 re-exports the private function unchanged".into()],
             extra: json!({}),
